@@ -474,8 +474,14 @@ func runC17(c *eng.Ctx) {
 					conds, _ := eng.GuardingConds(mj, s.Instr)
 					bad := ""
 					for _, cd := range conds {
-						if !eng.DependsOnField(cd, tkey+f) && !isLoopCondOn(cd, tkey+f) {
+						if !eng.DependsOnField(cd, tkey+f) {
 							bad = p.Desc(cd)
+						}
+						// a test of the field itself may skip the copy only when it is a test for the field's ZERO value (what the receiving
+						// side starts from): a comparison of the field / its length with 0, "" or nil. Any other predicate over the field
+						// (a method such as IsEmpty()) can be true for values that are not the zero value, which are then lost on the wire.
+						if eng.DependsOnField(cd, tkey+f) && !isLoopCondOn(cd, tkey+f) && !isZeroValueTest(cd) {
+							bad = p.Desc(cd) + " (not a comparison with the zero value)"
 						}
 					}
 					if bad != "" {
@@ -513,7 +519,7 @@ func runC17(c *eng.Ctx) {
 					conds, _ := eng.GuardingConds(uj, s.Instr)
 					bad := ""
 					for _, cd := range conds {
-						if !eng.DependsOnField(cd, ckey+src) && !isErrCond(cd) && !isLoopCondOn(cd, ckey+src) && !isAnyLoopCond(cd) {
+						if !eng.DependsOnField(cd, ckey+src) && !isErrCond(cd) && !isAnyLoopCond(cd) {
 							bad = p.Desc(cd)
 						}
 					}
@@ -718,6 +724,78 @@ func runC17(c *eng.Ctx) {
 	})
 
 	// ---- determinism of the parser ---------------------------------------------------------------------------------------------
+	c.Rule("PROV", "sql.Parse{every call hands out a statement built by this call}", func() {
+		f := c.Fn("sql.Parse")
+		fromListener := func(v ssa.Value) bool {
+			if k, ok := v.(*ssa.Const); ok && k.IsNil() {
+				return true
+			}
+			ok := false
+			eng.WalkExpr(v, func(x ssa.Value) bool {
+				if cl, isCall := x.(*ssa.Call); isCall {
+					if g := cl.Common().StaticCallee(); g != nil && p.FuncKey(g) == "sql.listener.statement" {
+						ok = true
+					}
+					return false // do not look into the call's own operands
+				}
+				return true
+			})
+			return ok
+		}
+		n := 0
+		fns := append([]*ssa.Function{f}, eng.Closures(f)...)
+		for _, fn := range fns {
+			for _, b := range fn.Blocks {
+				for _, in := range b.Instrs {
+					switch x := in.(type) {
+					case *ssa.Store:
+						named := false
+						switch a := x.Addr.(type) {
+						case *ssa.Alloc:
+							named = a.Comment == "stmt" && a.Parent() == f
+						case *ssa.FreeVar:
+							named = a.Name() == "stmt"
+						}
+						if !named {
+							continue
+						}
+						n++
+						c.Check(fromListener(x.Val), fmt.Sprintf("result-store[%d]", n), in, fn,
+							"the statement Parse returns is the one its own listener built from this text (or nil): the planner rewrites statements in place, so an object handed out twice no longer denotes the text the second time",
+							"assigns "+p.Desc(x.Val))
+					case *ssa.Return:
+						if fn != f || len(x.Results) == 0 {
+							continue
+						}
+						if u, ok := x.Results[0].(*ssa.UnOp); ok {
+							if a, ok := u.X.(*ssa.Alloc); ok && a.Comment == "stmt" {
+								continue
+							}
+						}
+						n++
+						c.Check(fromListener(x.Results[0]), fmt.Sprintf("result-return[%d]", n), in, fn, "the statement Parse returns is the one its own listener built from this text (or nil)", "returns "+p.Desc(x.Results[0]))
+					}
+				}
+			}
+		}
+		c.Check(n >= 1, "result-sites-found", nil, f, "Parse assigns its result", fmt.Sprintf("%d", n))
+		// no package-level statement store
+		for _, m := range p.SSA.AllPackages() {
+			if m.Pkg.Path() != "github.com/lindb/lindb/sql" {
+				continue
+			}
+			for name, mem := range m.Members {
+				g, ok := mem.(*ssa.Global)
+				if !ok {
+					continue
+				}
+				ts := g.Type().String()
+				c.Check(!strings.Contains(ts, "stmt.Statement") && !strings.Contains(ts, "stmt.Query"), "no-global-statement-store:"+name, nil, nil,
+					"package sql keeps no package-level container of parsed statements", "global "+name+" has type "+ts)
+			}
+		}
+	})
+
 	c.Rule("PROV", "sql{deterministic parsing}", func() {
 		sp := p.Package("sql")
 		if sp == nil {
@@ -809,7 +887,7 @@ func runC17(c *eng.Ctx) {
 
 // isLoopCondOn: the condition is the continuation test of a range loop over the given field.
 func isLoopCondOn(cond ssa.Value, fieldKey string) bool {
-	return eng.DependsOnField(cond, fieldKey)
+	return isAnyLoopCond(cond) && eng.DependsOnField(cond, fieldKey)
 }
 
 // isAnyLoopCond: `i < len(x)` style range-index condition (the loops that decode list items).
@@ -909,4 +987,56 @@ func mapOrderedResult(fn *ssa.Function) bool {
 		}
 	}
 	return false
+}
+
+// isZeroValueTest: cond compares a value (or len/cap of it) with the constant 0, "" or nil, and involves no method or function call.
+func isZeroValueTest(cond ssa.Value) bool {
+	if u, ok := cond.(*ssa.UnOp); ok && u.Op == token.NOT {
+		cond = u.X
+	}
+	bo, ok := cond.(*ssa.BinOp)
+	if !ok {
+		return false
+	}
+	isZero := func(v ssa.Value) bool {
+		k, ok := v.(*ssa.Const)
+		if !ok {
+			return false
+		}
+		if k.IsNil() {
+			return true
+		}
+		if k.Value == nil {
+			return true
+		}
+		switch k.Value.Kind() {
+		case constant.Int, constant.Float:
+			return constant.Sign(k.Value) == 0
+		case constant.String:
+			return constant.StringVal(k.Value) == ""
+		case constant.Bool:
+			return true
+		}
+		return false
+	}
+	var other ssa.Value
+	switch {
+	case isZero(bo.Y):
+		other = bo.X
+	case isZero(bo.X):
+		other = bo.Y
+	default:
+		return false
+	}
+	call := eng.DependsOn(other, func(x ssa.Value) bool {
+		cl, ok := x.(*ssa.Call)
+		if !ok {
+			return false
+		}
+		if b, ok := cl.Common().Value.(*ssa.Builtin); ok && (b.Name() == "len" || b.Name() == "cap") {
+			return false
+		}
+		return true
+	})
+	return !call
 }
